@@ -276,9 +276,12 @@ def determine_peaks_only_delta_series(values):
     array([0,  2, -1,  1,  0,  -1,  0,  -2,  0,  2,  0])
     """
     # enforce array type
-    values = np.array(values, dtype=float)
-    # rebase to zero as first value
+    values = np.array(values)
+    if values.dtype.kind in 'iub':
+        values = values.astype(np.int64)  # narrow integer types would wrap around in the differences
+    # rebase to zero as first value (exact for integer series, also on an offset beyond 2**53)
     values -= values[0]
+    values = values.astype(float)
     # remove all non-changing values
     cleaned_values, non_zero_indices = clean_out_non_changing(values)
     cleaned_values *= np.sign(cleaned_values[1])  # ensure first value is increasing
@@ -370,9 +373,12 @@ def determine_pseudo_cyclic_peak_only_series(values):
     array([0,  2, -1,  2,  0,  1,  0,  1,  0,  1,  0])
     """
     # enforce array type
-    values = np.array(values, dtype=float)
-    # rebase to zero as first value
+    values = np.array(values)
+    if values.dtype.kind in 'iub':
+        values = values.astype(np.int64)  # narrow integer types would wrap around in the differences
+    # rebase to zero as first value (exact for integer series, also on an offset beyond 2**53)
     values -= values[0]
+    values = values.astype(float)
     # remove all non-changing values
     cleaned_values, non_zero_indices = clean_out_non_changing(values)
     cleaned_values *= np.sign(cleaned_values[1])  # ensure first value is increasing
